@@ -23,7 +23,8 @@ Trace == ndJsonDeserialize("trace.ndjson")
 \* the code as it is (see NOTES-auth.md): the strict lane follows the code, deviations included.
 \* DEV_OracleSigIgnored left the set with fix 873f403 (the oracle branch now uses the result of
 \* VerifySignature).
-t_DEVS == {"DEV_ChallengeNoOwner", "DEV_OperatorBySender", "DEV_OracleSignerInfoCount"}
+\* DEV_OracleSignerInfoCount left it with fix 4bd9a0c (one signer info and one signature per required signer).
+t_DEVS == {"DEV_ChallengeNoOwner", "DEV_OperatorBySender"}
 
 VARIABLES l, S, mn
 vars == <<l, S, mn>>
